@@ -28,7 +28,7 @@ def keyTable : KeyTable :=
    (.SurfaceMeasure, [])]
 
 def fkeyTable : FKeyTable :=
-  [.dim, .geoDim, .isBoundary, .arity, .vec, .spacetime, .basisFuns, .bfName, .bfNumcomp, .bfComponent, .bfSpace, .inputs, .inName, .inShape, .inPhysical, .inUpdatable, .vars, .varName, .varSrc, .varShape, .varSymmetric, .varDeriv, .parName, .parShape, .onDemand]
+  [.dim, .geoDim, .isBoundary, .arity, .vec, .spacetime, .basisFuns, .bfName, .bfNumcomp, .bfComponent, .bfSpace, .inputs, .inName, .inShape, .inPhysical, .inUpdatable, .vars, .varName, .varSrc, .varShape, .varSymmetric, .varDeriv, .parName, .parShape, .exprs, .onDemand]
 
 /-- `Expr.hash` = hash((type(self), self.shape) + self.hash_key() + child_hashes) -/
 def baseHashHasTypeShapeChildren : Bool := true
@@ -37,7 +37,7 @@ def baseHashHasTypeShapeChildren : Bool := true
 def unknownCodegenReads : List String := []
 
 /-- disagreements between the ast extraction and the probing of live instances -/
-def extractionMismatches : List String := ["form key: ast ['arity', 'basisFuns', 'bfComponent', 'bfName', 'bfNumcomp', 'bfSpace', 'dim', 'exprs', 'geoDim', 'inName', 'inPhysical', 'inShape', 'inUpdatable', 'inputs', 'isBoundary', 'onDemand', 'parName', 'parShape', 'spacetime', 'varDeriv', 'varName', 'varShape', 'varSrc', 'varSymmetric', 'vars', 'vec'] vs probe ['arity', 'basisFuns', 'bfComponent', 'bfName', 'bfNumcomp', 'bfSpace', 'dim', 'geoDim', 'inName', 'inPhysical', 'inShape', 'inUpdatable', 'inputs', 'isBoundary', 'onDemand', 'parName', 'parShape', 'spacetime', 'varDeriv', 'varName', 'varShape', 'varSrc', 'varSymmetric', 'vars', 'vec']"]
+def extractionMismatches : List String := []
 
 /-- how `compile_cython_module` names the on-disk module (ast of compile.py): `'mod' + hashlib.shake_128(src.encode()).hexdigest(8)` -/
 def modnameAlg : String := "shake_128"
